@@ -93,14 +93,10 @@ def run(rep):
             rep.check(all(c[1] == set_term and c[3] == [handle] for c in contains) and set_term[0] == 'new', 'C05.gating', 'host-shareable-set', where,
                       f'host-shareable is not membership of this type\'s handle in the closure set ({[E.show(c, maxdepth=4) for c in contains][:2]})',
                       ok_detail=f'{set_term[1]}.contains(type handle)')
-    # closure set is the one seeded from all globals (same rule as C08)
+    # the set is the transitive closure of all module-scope variable types (shared rule)
     if set_term is not None:
-        seeds = [e for e in ogp.effects.get(q, []) if e['kind'] == 'mutate' and e['method'] == 'insert' and e['target'] == set_term]
-        ok_seed = any(e['loops'] and e['loops'][0][1] == ('f', modP, 'global_variables') and e['loops'][0][2] == [] and e['cond'] == ('true',) and
-                      e['args'] == [('f', ('tf', ('elem', e['loops'][0][0], e['loops'][0][1]), 1), 'ty')] for e in seeds)
-        rep.check(ok_seed, 'C05.host-shareable-closure', 'closure-seed', where,
-                  'the host-shareable set is not seeded from the type of every module-scope variable: structs of some variables (e.g. push constants, workgroup) would lose their checks',
-                  ok_detail='seeded from every module.global_variables element')
+        from rules.c08 import closure_discipline
+        closure_discipline(ogp, rep, 'C05.host-shareable-closure', q, set_term, modP, where)
     if not with_assert:
         return
     block = with_assert[0][1]
